@@ -11,6 +11,10 @@ oracle     : the same asymmetric problem (basis strings, Neel, wall; Ising / Hei
              optionally a lowering process on one site) through TJM (order 1 and 2), MCWF and Lindblad via the REAL
              `simulator.run`, against a dense reference built here with explicit Kronecker products (site 0 leftmost):
              exact diagonalisation (noise-free) or the vectorised Liouvillian exponential (noisy).
+extension  : kind `mastereq` (module C06_mastereq.py, cases `me-*`): the CONTENT of the two dense solvers against
+             Model.MasterEq — the captured `lindblad_rhs` closure on random rational rho, `l_dag_l_sum`, `jump_ops`,
+             `solve_ivp` kwargs, `Tr(O rho)` on a known rho, `preprocess_mcwf(...).heff`, one forced pass of `mcwf`;
+             oracle: independent dense Lindbladian / expm reference (see the docstring of that module).
 """
 from __future__ import annotations
 
@@ -36,6 +40,8 @@ from mqt.yaqs.core.data_structures.simulation_parameters import AnalogSimParams,
 from mqt.yaqs.core.libraries.gate_library import Z  # noqa: E402
 
 lind_mod = importlib.import_module("mqt.yaqs.analog.lindblad")
+
+import C06_mastereq as me  # noqa: E402  (extension: content of the Lindblad / MCWF solvers vs Model.MasterEq)
 
 I2 = np.eye(2, dtype=complex)
 PAULI = {"I": I2, "X": np.array([[0, 1], [1, 0]], complex), "Y": np.array([[0, -1j], [1j, 0]]),
@@ -210,8 +216,12 @@ def gen(rng, tier):
     n_idx = {"quick": 150, "thorough": 1500, "search": 120}.get(tier, 150)
     n_dyn = {"quick": 10, "thorough": 80, "search": 24}.get(tier, 10)
     # the solver hand-over and a first batch of dynamics come first (they are what D6 was about)
+    xr = random.Random(f"C06x:{rng.getstate()[1][:3]}")  # own stream: the draws of the existing kinds are unchanged
     for _ in range(6 if tier != "thorough" else 30):
         yield {"kind": "solvervec", "sub": rng.randrange(1 << 30)}
+    # extension: lindblad_rhs / l_dag_l_sum / jump_ops / heff / one forced MCWF pass vs Model.MasterEq (fast, ~11 cases each)
+    for _ in range({"quick": 30, "thorough": 200, "search": 40}.get(tier, 30)):
+        yield {"kind": "mastereq", "sub": xr.randrange(1 << 30)}
     for j in range(n_dyn):
         sub = rng.randrange(1 << 30)
         yield {"kind": "dyn-free" if j % 5 != 4 else "dyn-lind", "sub": sub}
@@ -707,6 +717,8 @@ def run_inner(inp):
         return run_dyn(inp)
     if k == "dyn-stat":
         return run_dyn_stat(inp)
+    if k == "mastereq":
+        return me.run_mastereq(inp)
     raise ValueError(k)
 
 
@@ -717,9 +729,16 @@ if __name__ == "__main__":
                  "matrices through all dense and sparse variants, the vectors handed to solve_ivp / MCWF, and dynamics of "
                  "asymmetric states under Ising / Heisenberg / site-dependent Pauli sums; distinct = distinct (kind, length, "
                  "position class, palindrome?, error?) signatures; non-trivial = not reversal-symmetric (index ties) resp. a "
-                 "reversed chain would differ by > 100 tol (dynamics)",
+                 "reversed chain would differ by > 100 tol (dynamics); extension (kinds me-*): 2-3 qubits, random Pauli-sum "
+                 "Hamiltonians, process lists from the noise library (1-site / adjacent / long-range, zero / negative / duplicate "
+                 "strengths, random order), random rational Hermitian and non-Hermitian rho through the captured lindblad_rhs "
+                 "closure, l_dag_l_sum, jump_ops, heff, solve_ivp kwargs, Tr(O rho) on a known rho, one forced MCWF pass; "
+                 "non-trivial = at least one process survives the strength filter (jumpops: at least one is dropped)",
             trusted_base=["numpy/scipy dense linear algebra (kron, eigh, expm) in the oracles",
-                          "np.kron / scipy.sparse.kron entry rule A[i//rB, j//cB]*B[i%rB, j%cB] (value-tied through _kron_all_*)"],
+                          "np.kron / scipy.sparse.kron entry rule A[i//rB, j//cB]*B[i%rB, j%cB] (value-tied through _kron_all_*)",
+                          "me-* ties: scipy.sparse matmul / conj().T, np.vdot, np.trace (compared with the exact model at 1e-9); "
+                          "np.sqrt(strength)**2 = strength up to rounding (sqrt_scaling_equiv assumes r*r = gamma exactly); "
+                          "solve_ivp returns y0 unchanged at t_eval[0] = t0; expm_arnoldi is observed, not modelled (C19)"],
             assumptions=["RK45 / Arnoldi / TDVP accuracy is measured against the dense reference, not proved: tolerances 1e-6 "
                          "(Lindblad, MCWF, TJM L<=3) and 5e-2 (TJM L in 4..5) are >= 100x the largest deviation seen on the clean tree",
                          "noisy TJM/MCWF are compared statistically (6 standard errors)"],
